@@ -2277,7 +2277,11 @@ def _eq(left: object, right: object) -> bool:
     if isinstance(left, bool):
         return isinstance(right, bool) and left == right
 
-    return left == right
+    try:
+        return left == right
+    except ArithmeticError:
+        # A signalling NaN decimal equals nothing.
+        return False
 
 
 def _lt(token: TokenT, left: object, right: object) -> bool:
@@ -2296,7 +2300,11 @@ def _lt(token: TokenT, left: object, right: object) -> bool:
     if isinstance(left, (int, float, Decimal)) and isinstance(
         right, (int, float, Decimal)
     ):
-        return left < right
+        try:
+            return left < right
+        except ArithmeticError:
+            # Ordering a NaN decimal signals. A float NaN is less than nothing.
+            return False
 
     raise LiquidTypeError(
         f"'<' and '>' are not supported between '{left.__class__.__name__}' "
@@ -2328,8 +2336,9 @@ def _contains(token: TokenT, left: object, right: object) -> bool:
     if isinstance(left, Collection):
         try:
             return right in left
-        except TypeError:
-            # An unhashable object can't be a member of a hash or set.
+        except (TypeError, ArithmeticError):
+            # An unhashable object can't be a member of a hash or set, and a
+            # signalling NaN decimal equals nothing.
             return False
 
     raise LiquidTypeError(
